@@ -49,6 +49,19 @@ def ab_check(ctx, exe, name, base, describe):
     return runs, None
 
 
+def many_waiters_cases():
+    """N threads parked on the same (level, name) list while saving: crosses the container's growth
+    steps (fix-ups recorded against list elements must survive the reload)"""
+    cases = []
+    for n in (2, 10, 11, 12, 23):
+        prog = [[("mark", 1)] + [("thread", 1)] * n + [("wait", 250), ("mark", 2), ("notify", 50, 1), ("wait", 125), ("mark", 3)],
+                [("waittill", 50, [1]), ("mark", 10), ("wait", 125), ("mark", 11)]]
+        base = ["reset", schedgen.script_line(prog), "callv m t0", "step 125", "step 125", "step 125", "step 125", "step 1000"]
+        for k in range(3, len(base)):
+            cases.append(("waiters%d@%d" % (n, k), base[:k] + ["save", "load"] + base[k:]))
+    return cases
+
+
 def check(ctx):
     common.proof_side(ctx, PROPS_MODULE, PROPS_FILE)
     if ctx.tier == "thorough":
@@ -58,6 +71,7 @@ def check(ctx):
     # (a) machine vs engine
     d = Diff(ctx, PROP, exe, "sched")
     bad = d.run_batch(schedcheck.corpus_cases("C09"))
+    bad += d.run_batch(many_waiters_cases())
     rng = ctx.rng("model")
     batch = []
     for i in range(300 if quick else 4000):
